@@ -8,7 +8,7 @@ import bcrun
 import lib
 
 OPS = ["load27", "load38", "load312", "load313", "load15", "loadnative", "dis27classic", "dis38xasm", "dis312ext", "dis313bytes",
-       "opc27", "opc313", "opc36pypy", "std36", "std312", "marsh", "loadcorrupt", "importgraal", "std27", "std27pypy", "marsh27a", "marsh27b", "loaddropbox", "marshcode27", "load38nocode"]
+       "opc27", "opc313", "opc36pypy", "std36", "std312", "marsh", "loadcorrupt", "importgraal", "std27", "std27pypy", "marsh27a", "marsh27b", "loaddropbox", "marshcode27", "load38nocode", "dis10classic", "dis311classic"]
 
 RULE = ("one case = one history (sequence of public operations: load_module of 1.5/2.7/3.8/3.12/3.13 files via xdis's unmarshaller and via the "
         "native fast path, disassemble_file in four formats, get_opcode for three tables, make_std_api for two versions, marsh dumps+loads, "
@@ -29,6 +29,8 @@ def files(d):
          "f15": sorted(glob.glob(str(lib.REPO / "test/bytecode_1.5/*.pyc")))[0], "fhost": first(host, "lib_bisect"),
          "f27b": first("2.7", "lib_abc") or sorted(glob.glob(str(lib.REPO / "test/bytecode_2.7/*.pyc")))[1],
          "f27pypy": str(lib.REPO / "test/bytecode_2.7pypy/04_pypy_lambda.pyc"),
+         "f10": str(lib.REPO / "test/bytecode_1.0/os.pyc"),             # functions with RESERVE_FAST (a caveat line per function in the listing)
+         "f311": sorted(glob.glob(str(lib.REPO / "test/bytecode_3.11/*.pyc")))[0],    # opcode names longer than the listing's name column
          "fdropbox": sorted(glob.glob(str(lib.REPO / "test/bytecode_2.5dropbox/*.pyc")), key=os.path.getsize)[0]}
     bad = d / "corrupt.pyc"
     data = open(f["f38"], "rb").read()
